@@ -256,7 +256,7 @@ ResOutcomes(p) ==
            THEN {O(0, <<RecvFin("s"), Tp("res_100_continue", i), SetOut("RES_LINE"), SetSp(i, LINE), Seen100(i), Ret("OK")>>)}   \* receiver finalised since the D21 fix
                 \cup {O(0, q) : q \in normal(<<>>)}
          ELSE IF p.txs[i].m = "CONNECT" /\ p.txs[i].st = "407"
-           THEN {O(0, q) : q \in normal(unblock)}
+           THEN {O(0, q) : q \in normal(unblock \o <<Set("odoate", TRUE)>>)}      \* since the D24 fix a 407 stops at the end of the transaction like any refused CONNECT
          ELSE IF p.txs[i].m = "CONNECT"
            THEN {O(0, q) : q \in normal(unblock \o <<Set("odoate", TRUE)>>)}
          ELSE {O(0, q) : q \in normal(<<>>)}
